@@ -200,6 +200,9 @@ fn eval_obj(h: &H, other: &H, buf_len: u16, out: &mut String) {
     let _ = write!(out, "store={:?},{:02x?};len={};", r, &buf[..buf.len().min(12)], lr.len_in_str());
     // Eq / Ord
     let _ = write!(out, "eq={};cmp={:?};dcmp={:?};", lr == lo, lr.cmp(&lo), d.cmp(&LongDualFuzzyHash::from_raw_form(&lo)));
+    // the formatting trait with width / precision / fill specifications (whatever it does with them, every
+    // configuration must do the same)
+    let _ = write!(out, "fmt={:.8}|{:>40}|{:*<5}|{:^12.3};", lr, ln, lr, ln);
     // parse back
     let t = format!("{}", lr);
     let _ = write!(out, "reparse={};", txt(t.parse::<LongRawFuzzyHash>()));
